@@ -8,6 +8,7 @@ import BbRe.Lemmas.InputRootRename
 import BbRe.Lemmas.InputRootState
 import BbRe.Lemmas.InputRootCache
 import BbRe.Lemmas.InputRootExamples
+import BbRe.Lemmas.InputRootHardLink
 /-!
 # C17 — the input root is exactly the requested tree and cannot be altered
 
@@ -532,5 +533,49 @@ example :
        (.treeRoot 7, none, 10), (.directory 8, some 80, 10), (.directory 7, none, 10),
        (.treeChild 9 7, some 70, 10)]).2 =
     [.miss 70, .miss 71, .hit 70, .hit 71, .miss 80, .error, .miss 70] := by decide
+
+/-! ## the hard-linking file fetcher (input roots of non-virtual workers) -/
+
+open BbRe.InputRoot.HardLink BbRe.Lemmas.InputRoot.HardLink in
+/-- One `GetFile` under the stated file system assumption: if every regular file in
+the cache directory has the contents of its key (`CacheClean`; kept by `GetFile`
+and by deletions / replacements by directories behind the worker's back), then a
+`nil` return means the target exists **with the requested contents** — there is no
+successful return without a file — and cache cleanliness and limits are kept. -/
+theorem hardlink_getfile_correct (s : HardLink.State) (k size : Nat) (casHas : Bool)
+    (hc : CacheClean s.disk) (hl : Lim s.maxFiles s.maxSize s.entries) :
+    ((getFile s k size casHas).2 = .ok k ∨ (getFile s k size casHas).2 = .error) ∧
+    CacheClean (getFile s k size casHas).1.disk ∧
+    Lim s.maxFiles s.maxSize (getFile s k size casHas).1.entries := by
+  obtain ⟨c1, l1, _, _, r1⟩ := getFile_inv s k size casHas hc hl
+  exact ⟨r1 _ rfl, c1, l1⟩
+
+open BbRe.InputRoot.HardLink BbRe.Lemmas.InputRoot.HardLink in
+/-- Every history of `GetFile` calls and cache directory faults, any limits, any
+pattern of CAS misses, starting from an empty cache: every call fails or delivers
+the requested contents, and the cache never exceeds its limits (at most
+`max maxFiles 1` files; at most `maxSize` bytes unless a single file is larger). -/
+theorem hardlink_history (maxFiles maxSize : Nat) (ops : List HLOp) :
+    Lim maxFiles maxSize (hlRun ⟨maxFiles, maxSize, [], []⟩ ops).1.entries ∧
+    ∀ x ∈ (hlRun ⟨maxFiles, maxSize, [], []⟩ ops).2, x.2 = .ok x.1 ∨ x.2 = .error :=
+  hlRun_inv ops ⟨maxFiles, maxSize, [], []⟩ (by intro k c h; simp at h)
+    ⟨by simp, Or.inl (by simp [total])⟩
+
+open BbRe.InputRoot.HardLink BbRe.Lemmas.InputRoot.HardLink in
+/-- A file the bookkeeping knows but that vanished from the cache directory is
+downloaded again and put back (the `ENOENT` of `link(2)` is not a success). -/
+theorem hardlink_repairs_vanished_entry (s : HardLink.State) (k size : Nat)
+    (hk : known s.entries k = true) (hd : onDisk s.disk k = none) :
+    (getFile s k size true).2 = .ok k ∧ onDisk (getFile s k size true).1.disk k = some (.file k) :=
+  getFile_repairs s k size hk hd
+
+open BbRe.InputRoot.HardLink BbRe.Lemmas.InputRoot.HardLink in
+/-- download, hit, eviction by the file limit, entry deleted by a cleaner (repaired),
+entry replaced by a directory (error), CAS miss of an uncached file (error). -/
+example :
+    (hlRun ⟨2, 100, [], []⟩
+      [.get 1 10 true, .get 1 10 false, .get 2 10 true, .get 3 10 true, .get 1 10 false,
+       .fault (.remove 3), .get 3 10 true, .fault (.mkdir 2), .get 2 10 true]).2 =
+    [(1, .ok 1), (1, .ok 1), (2, .ok 2), (3, .ok 3), (1, .error), (3, .ok 3), (2, .error)] := by decide
 
 end BbRe.Properties.C17
